@@ -219,6 +219,15 @@ def degenerateNaN {α} (c : Cfg α) : Bool := c.slope.isNone
     nothing ever drains it (exact-rational reading of `T`) -/
 def starves (c : Cfg Rat) : Bool := c.slope.isSome && decide (c.T < c.cf) && decide (0 < c.warn)
 
+/-- `warmup-stuck-at-warning`: after the sync the bucket sits exactly on the warning line, where
+    `coolDownTokens` has no refill branch (state classifier: calculator fields + stored tokens) -/
+def stuckAtWarning {α} (c : Cfg α) (t : Tok) : Bool := decide (t.tokens = c.warn)
+
+/-- `warmup-late-ramp`: `elapsed` whole seconds of saturating demand, at least the warm-up period but still inside
+    the bound `maxToken - warningToken + 1` within which the warning line is provably reached -/
+def lateRamp {α} (c : Cfg α) (period elapsed : Nat) : Bool :=
+  decide (period ≤ elapsed) && decide (elapsed < c.max - c.warn + 2)
+
 end Known
 
 end Sentinel.WU
